@@ -128,6 +128,10 @@ def gen_pristine(ctx, rng):
             for stream in (["bbb", "tears"] if ctx.thorough else ["bbb"]):
                 for q in option_sets(m, mode, stream, rng, ctx.thorough):
                     q = dict(q)
+                    if stream == "tears" and mode == "live" and not (q.get("timeline") or m.segment_timeline):
+                        # `hcont` of validator_accepts_number_addressing: the audio track's loop drift (1024
+                        # ticks) exceeds the validator's tolerance (1000) – ledger number-drift-beyond-tolerance
+                        continue
                     now = rng.choice(NOW_POOL if ctx.thorough else NOW_POOL[:2])
                     if mode == "live":
                         q["depth"] = rng.choice(["30", "30", "40", "60"])
@@ -429,14 +433,39 @@ def effective_timelines(root) -> list:
     return out
 
 
+def init_loads(data: bytes) -> bool:
+    """does `InitSegment.load` keep this response?  (moov present and the boxes `process_moov`
+    dereferences; the rule itself is checked by the `vinit` channel)"""
+    import mp4walk
+    try:
+        boxes = mp4walk.walk(data)
+    except Exception:
+        return False
+    mv = next((bx for bx in boxes if bx.type == "moov"), None)
+    if mv is None:
+        return False
+    have = set()
+
+    def desc(bx):
+        for c in bx.children:
+            have.add(c.type)
+            desc(c)
+    desc(mv)
+    hd = mp4walk.find(mv, "trak/mdia/hdlr")
+    need = {"trak", "mdia", "mdhd", "tkhd", "hdlr"}
+    if hd is not None and hd.fields.get("handler_type") == "vide":
+        need |= {"minf", "stbl", "stsd"}
+    return need <= have
+
+
 def correspond(case, res, chs, batch: Batch):
     """queue the model's questions about one session"""
     info = {"case": case.json()}
     init_data = {}
     by_url = {}
     for ex in res.exchanges:
-        if ex.cls == "init" and ex.status == 200:
-            init_data.setdefault(ex.rep, ex.data)
+        if ex.cls == "init" and ex.status == 200 and ex.rep not in init_data and init_loads(ex.data):
+            init_data[ex.rep] = ex.data       # the response the validator keeps (init_segment.py:72-75)
         if ex.cls == "media":
             by_url[(ex.url, ex.pass_no)] = ex
     model_err = {"n": 0}
@@ -453,8 +482,8 @@ def correspond(case, res, chs, batch: Batch):
                 continue
             if any(a["oid"] != c_["oid"] for a, c_ in zip(rpre["segments"], rpost["segments"])):
                 continue
-            ctx = M.ctx_token(rpost, case.encrypted())
             trex = M.trex_default_duration(init_data.get(rid))
+            ctx = M.ctx_token(rpost, case.encrypted(), has_trex=trex is not None)
             toks, expect, ok = [], [], True
             for spre, spost in zip(rpre["segments"], rpost["segments"]):
                 new_errs = spost["errors"][len(spre["errors"]):]
